@@ -285,30 +285,33 @@ theorem host6531_sound (b : Build) (conv : List Nat → Conv) (d : List Nat) (tl
     (h : isUtf8Domain b conv d tld = .ok (rc, irc)) (hacc : 0 ≤ rc) (hnf : ∀ a, (conv d).out = some a → NulFree a) :
     ∃ a, (conv d).rc = 0 ∧ (conv d).out = some a ∧ HostOk b.underscore a := by
   unfold isUtf8Domain at h
-  by_cases hd : d.isEmpty = true
-  · simp [hd, pure, Except.pure] at h; omega
-  · simp only [hd, Bool.false_eq_true, if_false] at h
-    by_cases hc : ((conv d).rc != 0) = true
-    · simp [hc, pure, Except.pure] at h; omega
-    · simp only [hc, Bool.false_eq_true, if_false] at h
-      cases hout : (conv d).out with
-      | none => simp [hout] at h
-      | some a =>
-        simp only [hout] at h
-        cases hdom : isAsciiDomain b.underscore a [0] with
-        | error e => simp [hdom, bind, Except.bind] at h
-        | ok r =>
-          simp only [hdom, bind, Except.bind] at h
-          by_cases hr : (r != 0) = true
-          · simp [hr, pure, Except.pure] at h
+  split at h
+  · simp only [Except.ok.injEq, Prod.mk.injEq] at h
+    obtain ⟨rfl, _⟩ := h
+    exact absurd hacc (by decide)
+  · simp only at h
+    split at h
+    · simp only [Except.ok.injEq, Prod.mk.injEq] at h
+      obtain ⟨rfl, _⟩ := h
+      exact absurd hacc (by decide)
+    · rename_i hc
+      split at h
+      · cases h
+      · rename_i a hout
+        split at h
+        · cases h
+        · rename_i r hdom
+          split at h
+          · rename_i hr
+            simp only [Except.ok.injEq, Prod.mk.injEq] at h
             obtain ⟨rfl, _⟩ := h
-            -- a non-zero result of is_ascii_domain is a negative error code
             exfalso
             have := isAsciiDomain_nonpos b.underscore a [0] r hdom
             simp at hr; omega
-          · simp at hr
-            subst hr
-            refine ⟨a, by simpa using hc, rfl, (host_iff _ a (hnf a hout)).mp hdom⟩
+          · rename_i hr
+            have hr0 : r = 0 := by simpa using hr
+            subst hr0
+            refine ⟨a, by simpa using hc, hout, (host_iff _ a (hnf a hout)).mp hdom⟩
 
 /-! ### non-vacuity and the corollaries named in the property -/
 
